@@ -8,6 +8,8 @@ pub struct Multinomial<'a> {
 
 impl<'a> Multinomial<'a> {
     pub fn new(probs: &'a [f64]) -> Self {
+        #[cfg(feature = "verif-hooks")]
+        crate::verif::note_weights(probs);
         Multinomial {
             init_probs: &probs[..probs.len() - 1],
         }
